@@ -274,6 +274,9 @@ func (e *engine) chaninvTypeCoverage(props []string) []*oblig {
 			if b := e.db.funcs[canonName(fn)]; b != nil && b.kind == "func" {
 				continue
 			}
+			if e.inlinedEverywhere(fn, 0) {
+				continue // a helper without contract whose every call is a plain call from a function under contract: its sends are executed (inlined) there
+			}
 			for _, blk := range fn.Blocks {
 				for _, ins := range blk.Instrs {
 					var chs []ssa.Value
@@ -720,3 +723,63 @@ func (e *engine) blockingObligations(props []string) []*oblig {
 }
 
 func fnameIs(a, b string) bool { return a == b }
+
+// inlinedEverywhere: fn (no contract) is only ever called by plain static calls from functions that are under
+// contract, or from helpers of which the same holds: the generator inlines such callees, so every send fn
+// performs is executed symbolically in a function under contract.
+func (e *engine) inlinedEverywhere(fn *ssa.Function, depth int) bool {
+	if depth > 3 || fn.Parent() != nil {
+		return false
+	}
+	if e.callersOf == nil {
+		e.callersOf = map[*ssa.Function][]*ssa.Function{}
+		e.usedAsValue = map[*ssa.Function]bool{}
+		for _, f := range e.allRepoFuncs() {
+			for _, b := range f.Blocks {
+				for _, ins := range b.Instrs {
+					switch i := ins.(type) {
+					case *ssa.Call:
+						if c, ok := i.Call.Value.(*ssa.Function); ok && !i.Call.IsInvoke() {
+							e.callersOf[c] = append(e.callersOf[c], f)
+						}
+					case *ssa.Go:
+						if c, ok := i.Call.Value.(*ssa.Function); ok {
+							e.usedAsValue[c] = true
+						}
+					case *ssa.Defer:
+						if c, ok := i.Call.Value.(*ssa.Function); ok {
+							e.usedAsValue[c] = true
+						}
+					}
+					// a function used as a value (stored, passed, bound) is not necessarily inlined
+					for _, op := range ins.Operands(nil) {
+						if op == nil || *op == nil {
+							continue
+						}
+						if c, ok := (*op).(*ssa.Function); ok {
+							if call, isCall := ins.(*ssa.Call); !isCall || call.Call.Value != c {
+								e.usedAsValue[c] = true
+							}
+						}
+					}
+				}
+			}
+		}
+	}
+	if e.usedAsValue[fn] || len(e.callersOf[fn]) == 0 {
+		return false
+	}
+	for _, c := range e.callersOf[fn] {
+		root := c
+		for root.Parent() != nil {
+			root = root.Parent()
+		}
+		if b := e.db.funcs[canonName(c)]; b != nil && b.kind == "func" {
+			continue
+		}
+		if !e.inlinedEverywhere(c, depth+1) {
+			return false
+		}
+	}
+	return true
+}
